@@ -362,6 +362,22 @@ def scan_loop_of(f):
     return None
 
 
+def line_sources(fn):
+    """the expressions a code-emitting function turns into lines, in the order they are written down: arguments of
+    <printer>.writeline / writelines and what is appended to / extended into a local list (a header collected first and written at once)"""
+    out = []
+    for n in walk_func(fn):
+        if isinstance(n, ast.Call) and isinstance(n.func, ast.Attribute):
+            if n.func.attr in ("writeline", "writelines") and (dotted(n.func.value) or "").endswith("printer"):
+                out += [a for a in n.args if not isinstance(a, ast.Starred)]
+            elif n.func.attr == "append" and isinstance(n.func.value, ast.Name) and len(n.args) == 1:
+                out.append(n.args[0])
+            elif n.func.attr == "extend" and isinstance(n.func.value, ast.Name) and len(n.args) == 1 and isinstance(n.args[0], (ast.Tuple, ast.List)):
+                out += list(n.args[0].elts)
+    out.sort(key=lambda a: a.lineno)
+    return out
+
+
 def lexer_side_scanner(db):
     """the function that decides, for adjust_whitespace, whether a line begins inside a multi-line string / continuation:
     the local function of adjust_whitespace (whatever it is called) that walks along its line argument in a `while <line>:` loop"""
